@@ -538,10 +538,79 @@ def run(res, facts, tier):
     r7_twins(res, facts)
 
 
+# ----------------------------------------------------------------------------------------------- R9: the entry wrappers set up the same environment
+RESULT_TYPES = ('bool &', 'double &', 'XalanDOMString &', 'MutableNodeRefList &')
+
+
+def r9_entry_wrappers(res, facts):
+    """XPath::execute exists once per (way of giving the context) x (result type).  What an expression can observe - context node, current node (current()), prefix resolver,
+    context node list - must not depend on the result type: within one family the wrappers construct the same scope objects with the same arguments and hand the same
+    context on to executeMore / execute."""
+    r9 = res.rule('C11-R9', 'the XPath::execute wrappers of one family (same way of giving the context, different result type) set up the same environment: the same scope objects '
+                  '(prefix resolver, current node, context node list) constructed with the same arguments, the same context handed on; only the result argument differs', floor=20)
+    fam = collections.defaultdict(list)
+    for a in facts.asts('XPath::execute', must=False):
+        if a.get('body') is None or not a['file'].endswith(('XPath/XPath.cpp', 'XPath/XPath.hpp')):
+            continue
+        tys = [short(p.get('ty', '')) for p in a['params']]
+        res_ids = set()
+        env_tys = []
+        for p, t in zip(a['params'], tys):
+            if t in RESULT_TYPES or t.startswith('FormatterListener &') or '(FormatterListener::*)' in t:
+                res_ids.add(p['id'])
+            else:
+                env_tys.append(t)
+        guards = []
+        handoff = None
+        other = []
+        for st in a['body'].get('c', []):
+            if st['k'] == 'Decl':
+                for v in st['vars']:
+                    ini = strip_casts(v['init']) if v.get('init') is not None else None
+                    if ini is not None and ini.get('k') == 'Ctor':
+                        guards.append('%s(%s)' % (short(ini.get('cls') or '').split('::')[-1], ', '.join(pp(x) for x in ini.get('args', []))))
+                    else:
+                        other.append(pp(st)[:80])
+                continue
+            if st['k'] == 'Cast' and st.get('ck') == 'ToVoid':
+                continue            # assert() compiled out
+            cs = [c for c in calls(st) if (c.get('n') or '') in ('executeMore', 'execute')]
+            if cs:
+                c = cs[0]
+                keep = [pp(x) for x in c.get('args', []) if not (strip_casts(x).get('k') == 'Ref' and strip_casts(x).get('id') in res_ids)]
+                handoff = '%s(%s)' % (c.get('n'), ', '.join(keep))
+            else:
+                other.append(pp(st)[:80])
+        fam[tuple(env_tys)].append((a, (tuple(guards), handoff, tuple(other)), [t for t in tys if t not in env_tys]))
+    if len(fam) < 3:
+        raise AnalysisBroken('XPath::execute: %d families of wrappers (3 or more expected)' % len(fam))
+    for env_tys, members in sorted(fam.items()):
+        if len(members) < 2:
+            continue
+        count = collections.Counter(m[1] for m in members)
+        ref, _ = count.most_common(1)[0]
+        label = 'execute(%s; ...)' % ', '.join(env_tys)
+        for a, prof, rt in members:
+            site = '%s -> %s' % (label, ', '.join(rt) or 'XObjectPtr')
+            if prof == ref:
+                r9.ok(site, '%s then %s' % (list(prof[0]), prof[1]))
+            else:
+                what = []
+                if prof[0] != ref[0]:
+                    what.append('scope objects %s where its siblings have %s' % (list(prof[0]) or 'none', list(ref[0]) or 'none'))
+                if prof[1] != ref[1]:
+                    what.append('hands on %s where its siblings hand on %s' % (prof[1], ref[1]))
+                if prof[2] != ref[2]:
+                    what.append('other statements %s against %s' % (list(prof[2]), list(ref[2])))
+                r9.violation(site, '; '.join(what) + ': the expression sees another environment when it is asked for this result type', common.file_line(a))
+    return r9
+
+
 _run_c11_prev7 = run
 
 
 def run(res, facts, tier):
     _run_c11_prev7(res, facts, tier)
+    r9_entry_wrappers(res, facts)
     from . import c02_expr
     c02_expr.run_c11_rule(res, facts, tier)
